@@ -1469,37 +1469,37 @@ CLAUSES = [
     Clause('insert', oracle_insert, insert_cases, quick=14000, thorough=420000,
            min_share={'nt': 0.1, 'image': 0.15, 'scaled': 0.12, 'id_neg': 0.03, 'refuse_nosite': 0.1, 'cross_pos_to_id': 0.08,
                       'cross_id_to_pos': 0.08, 'alias_probe': 0.08, 'kw': 0.1, 'twin': 0.05, 'had_old_id': 0.07, 'mixed_pbc': 0.2,
-                      'type_v': 0.1, 'type_i': 0.1, 'type_s': 0.1, 'type_db': 0.08, 'via_point': 0.15,
+                      'type_v': 0.1, 'type_i': 0.1, 'type_s': 0.1, 'type_db': 0.08, 'via_point': 0.13,
                       'units': 0.15, 'units_named': 0.07, 'units_seed': 0.05, 'units_len_nm': 0.02, 'units_A_lt1e-3': 0.1,
                       'units_pos_default_atol': 0.09, 'units_datol_off_0.3': 0.015, 'units_datol_off_3': 0.013,
-                      'hist_before': 0.05, 'hist_after': 0.02, 'hist_both': 0.02,
+                      'hist_before': 0.049, 'hist_after': 0.02, 'hist_both': 0.02,
                       # generator classes carried over from the seeded rounds (guards at half the observed share)
                       'ledger': 0.26, 'ledger_other': 0.1, 'args_checked': 0.17, 'mut_args': 0.035, 'mut_input': 0.065,
                       'mut_input_setters': 0.028, 'argdt': 0.05, 'iddt': 0.025, 'kw_narrow': 0.045, 'atol_npscalar': 0.06,
-                      'store_pos': 0.06, 'store_pos_float32': 0.035, 'store_narrow': 0.075, 'layout_ro': 0.018,
+                      'store_pos': 0.056, 'store_pos_float32': 0.035, 'store_narrow': 0.069, 'layout_ro': 0.016,
                       'near_atol': 0.015, 'near_atol_in': 0.006, 'near_atol_out': 0.008, 'tiny_off': 0.003, 'tiny_db': 0.012,
                       'nearface': 0.017, 'nearface_image': 0.008, 'sym': 0.1, 'sym_exact': 0.09, 'sym_perm': 0.075, 'sym_diag': 0.025,
                       'sym_lefthanded': 0.055},
            desc='one insertion of any type, site by index or position (within/beyond atol, images, relative), against the model; '
                 'about a third under other process-wide working units (reset_units), default atol = 0.01 angstrom physically'),
     Clause('refuse', oracle_insert, refuse_cases, quick=4400, thorough=80000, nontrivial='refusal',
-           min_share={'refusal': 0.45, 'refuse_both': 0.04, 'refuse_oor': 0.03, 'refuse_neither': 0.008, 'refuse_notallowed': 0.04,
+           min_share={'refusal': 0.44, 'refuse_both': 0.037, 'refuse_oor': 0.03, 'refuse_neither': 0.008, 'refuse_notallowed': 0.04,
                       'refuse_occupied': 0.03, 'refuse_sametype': 0.05, 'refuse_nosite': 0.15, 'ambiguous': 0.01,
-                      'image_nonperiodic': 0.08, 'units': 0.15, 'units_pos_default_atol': 0.05, 'hist_before': 0.05,
-                      'ledger': 0.05, 'args_checked': 0.18, 'argdt': 0.055, 'iddt': 0.03, 'store_pos': 0.06, 'sym': 0.095},
+                      'image_nonperiodic': 0.08, 'units': 0.15, 'units_pos_default_atol': 0.046, 'hist_before': 0.049,
+                      'ledger': 0.048, 'args_checked': 0.18, 'argdt': 0.055, 'iddt': 0.03, 'store_pos': 0.056, 'sym': 0.092},
            desc='refusal classes built on purpose: absent / ambiguous / occupied site, same type, both / neither of pos and ptd_id, '
                 'index out of range, point() keyword misuse; input untouched'),
     Clause('intpos', oracle_intpos, intpos_cases, quick=2000, thorough=24000,
-           min_share={'int_used': 0.3, 'nt': 0.2, 'argdt': 0.26, 'ledger': 0.27, 'args_checked': 0.22},
+           min_share={'int_used': 0.3, 'nt': 0.2, 'argdt': 0.26, 'ledger': 0.25, 'args_checked': 0.22},
            desc='positions with integral coordinates given as integer-typed list / array'),
     Clause('history', oracle_history, history_cases, quick=2600, thorough=90000,
            min_share={'composed': 0.15, 'nt': 0.07, 'mixed_types': 0.2, 'units': 0.15, 'units_pos_default_atol': 0.14,
-                      'units_datol_off_0.3': 0.04, 'hist_before': 0.05,
+                      'units_datol_off_0.3': 0.039, 'hist_before': 0.049,
                       'ledger': 0.37, 'ledger_other': 0.13, 'mut_args': 0.1, 'mut_input': 0.1, 'argdt': 0.11, 'iddt': 0.045,
-                      'store_pos': 0.06, 'sym': 0.12, 'near_atol': 0.019, 'nearface': 0.028},
+                      'store_pos': 0.056, 'sym': 0.096, 'near_atol': 0.019, 'nearface': 0.028},
            desc='1-4 successive insertions; old_id composes to the first system; every intermediate input untouched'),
     Clause('combos', oracle_combos, enumerate=combo_cases, nontrivial='allok',
-           min_share={'allok': 0.48, 'allok_single': 0.012, 'allok_pair': 0.027, 'allok_triple': 0.1, 'composed': 0.33, 'ledger': 0.46,
+           min_share={'allok': 0.48, 'allok_single': 0.012, 'allok_pair': 0.027, 'allok_triple': 0.097, 'composed': 0.33, 'ledger': 0.46,
                       'mut_input': 0.12, 'mut_args': 0.12},
            desc='enumerated: every combination of the options of one call (type x site by +index / -index / position x scale x atol x '
                 'direct / point() x new type x old_id x keyword values), every ordered pair of (type, site, scale, extras) and every '
